@@ -7,7 +7,7 @@
 (* ExpList is the list model; the session names are NOT part of it (they   *)
 (* are governed by C13) -- they only have to agree across the views.       *)
 (***************************************************************************)
-EXTENDS Integers, Sequences, FiniteSets, SequencesExt, FiniteSetsExt, PyList
+EXTENDS Integers, Sequences, FiniteSets, SequencesExt, FiniteSetsExt, PyList, TLC
 
 Core(L)   == [i \in DOMAIN L |-> <<L[i].id, L[i].o, L[i].m, L[i].a>>]
 Useful(o) == IF o \in {"", " "} THEN "UNKNOWN" ELSE o
@@ -60,6 +60,13 @@ SetDataOK(L, e, P) ==
                               ELSE IF Len(e.names) = 0 THEN P[i].o = (IF i <= n THEN L[i].o ELSE "")
                               ELSE TRUE
 
+\* set_data (re)names every curve, so afterwards the session names are the fresh numbering of the names: unique names bare,
+\* duplicates :1..:n in order (this is what keys() / las[name] expose)
+NamesFresh(P) == \A i \in DOMAIN P :
+                    LET g == {j \in DOMAIN P : Useful(P[j].o) = Useful(P[i].o)}
+                    IN P[i].s = IF Cardinality(g) > 1 THEN Useful(P[i].o) \o ":" \o ToString(Cardinality({j \in g : j <= i}))
+                                ELSE Useful(P[i].o)
+C_SetDataNames(e, P) == (e.op = "set_data" /\ e.exc = "") => NamesFresh(P)
 C_List(L, e, P)  == IF e.op = "set_data" THEN SetDataOK(L, e, P) ELSE Core(P) = ExpCore(L, e)
 C_Exc(L, e)      == e.op # "set_data" => e.exc = ExpExc(L, e)
 C_Frame(O, e, P) == \A t \in DOMAIN O : t # e.t => P[t] = O[t]           \* the other LASFile is untouched
